@@ -16,6 +16,7 @@ parser and the reflection-driven `tick.Evaluate` never raise a run-time error; s
 -/
 import Kap.Proofs.C05
 import Kap.Proofs.C05Udf
+import Kap.Proofs.C05Bnd
 import Kap.Spec.C05
 import Kap.Gen.C05
 namespace Kap.Props.C05
@@ -56,14 +57,39 @@ only and the stream ends with exactly one EOF (at the end of the input) or error
 def lexer_partition_stmt : Prop :=
   ∀ c : Ctx, c.fixed = true → ∀ toks, lexRun c = .done toks → lexSpec c (.toks toks true) = none
 
-/-- Full strength of "on rune boundaries": every token starts and ends where a rune of the input starts
-(no token cuts a multi-byte rune — what the snapshot's `peek` got wrong). Not proved: `lexer_in_bounds`
-gives the byte bounds only; the boundary part is covered by the correspondence (the model decodes at
-whatever byte offset the cursor has, and its token stream equals the implementation's on every generated
-input, including all short strings with 2-, 3- and 4-byte runes and invalid bytes). -/
-def lexer_rune_boundaries_stmt : Prop :=
-  ∀ c : Ctx, c.fixed = true → ∀ toks, lexRun c = .done toks →
-    ∀ t ∈ toks, Bnd c.inp t.pos ∧ Bnd c.inp (t.pos + tlen t)
+/-- **On rune boundaries**: every token starts and ends where a rune of the input starts (offsets reached
+from 0 by decoding one rune after the other, `Bnd`) — no token ever cuts a multi-byte rune, which is what
+the snapshot's `peek` got wrong. -/
+theorem lexer_rune_boundaries (c : Ctx) (hf : c.fixed = true) (toks : List Tok) (h : lexRun c = .done toks) :
+    ∀ t ∈ toks, Bnd c.inp t.pos ∧ Bnd c.inp (t.pos + tlen t) := by
+  have hg : Good c {} := ⟨rfl, by simp, by simp, by simp [Ctx.len], ⟨by simp, by simp⟩⟩
+  have hB : B c {} := ⟨Bnd.zero, Bnd.zero, by intro t ht; cases ht⟩
+  obtain ⟨l', h', _, hb⟩ := run_bnd c hf (lexFuel c) {} .token hg trivial hB (by simp [mu, rank, lexFuel, Ctx.len])
+  have e : toks = l'.toks.reverse := by
+    have : LexOut.done toks = LexOut.done l'.toks.reverse := by rw [← h, ← h']; rfl
+    exact LexOut.done.inj this
+  subst e
+  exact fun t ht => hb.bt t (List.mem_reverse.mp ht)
+
+/-- Non-vacuity / counterexample: offset 2 of `/é/` (inside `é`) is no rune boundary, offsets 1 and 3 are. -/
+theorem bnd_example : Bnd [0x2F, 0xC3, 0xA9, 0x2F] 1 ∧ Bnd [0x2F, 0xC3, 0xA9, 0x2F] 3 ∧ ¬ Bnd [0x2F, 0xC3, 0xA9, 0x2F] 2 := by
+  have b1 : Bnd [0x2F, 0xC3, 0xA9, 0x2F] 1 := Bnd.step (p := 0) Bnd.zero (by decide) (by decide)
+  have b3 : Bnd [0x2F, 0xC3, 0xA9, 0x2F] 3 := Bnd.step (p := 1) b1 (by decide) (by decide)
+  refine ⟨b1, b3, ?_⟩
+  -- every boundary is 0, 1, 3 or 4
+  have key : ∀ p, Bnd [0x2F, 0xC3, 0xA9, 0x2F] p → p = 0 ∨ p = 1 ∨ p = 3 ∨ p = 4 := by
+    intro p hp
+    induction hp with
+    | zero => exact Or.inl rfl
+    | step _ h0 hlt ih =>
+      rcases ih with rfl | rfl | rfl | rfl
+      · right; left; decide
+      · right; right; left; decide
+      · right; right; right; decide
+      · simp at hlt
+  intro h2
+  have := key 2 h2
+  omega
 
 /-- Counterexample (defect repaired by af76a39): with `peek` as it was at the snapshot, `/é/` drives the
 cursor to -1 and the next `l.input[l.pos:]` panics in the lexer goroutine (the process dies). -/
